@@ -169,6 +169,16 @@ def _install(cfg):
                         return None
                 except Exception:
                     return None
+            if c['arm'].get('state_key') is not None:
+                # e.g. RemoteWorker.__setstate__ on the server side: state['_from_remote_parent'] is True
+                try:
+                    if not (sys._getframe(1).f_locals.get('state') or {}).get(c['arm']['state_key']):
+                        return None
+                except Exception:
+                    return None
+            if st.get('skip', c.get('skip_arms', 0)) > 0:
+                st['skip'] = st.get('skip', c.get('skip_arms', 0)) - 1
+                return None
             arm(code)
             if evset == 'ebp':
                 event('start', code, off)
